@@ -6,7 +6,10 @@ i=s.index("	case Set:")
 j=s.index("	}\n	return fmt.Sprintf(\"<%T>\", v)")
 open('/verif/harness/cmd/zz_verif_rt.go','w').write(s[:i]+s[j:])
 t=open('/verif/harness/in_toto/zz_verif_replay_test.go').read().replace("package in_toto","package cmd",1)
-open('/verif/harness/cmd/zz_verif_replay_test.go','w').write(t[:t.index("// TestVerifRace")])
+t=t[:t.index("// TestVerifRace")]
+for imp in ('\t"crypto/sha256"\n','\t"encoding/base64"\n','\t"strings"\n'):  # used by TestVerifRace only
+    t=t.replace(imp,'',1)
+open('/verif/harness/cmd/zz_verif_replay_test.go','w').write(t)
 
 # internal/spiffe
 import os
@@ -15,3 +18,6 @@ s2=open('/verif/harness/cmd/zz_verif_rt.go').read().replace("package cmd","packa
 open('/verif/harness/internal/spiffe/zz_verif_rt.go','w').write(s2)
 t2=open('/verif/harness/cmd/zz_verif_replay_test.go').read().replace("package cmd","package spiffe",1)
 open('/verif/harness/internal/spiffe/zz_verif_replay_test.go','w').write(t2)
+
+import subprocess
+subprocess.run(['gofmt','-w','/verif/harness/cmd/zz_verif_replay_test.go','/verif/harness/internal/spiffe/zz_verif_replay_test.go','/verif/harness/cmd/zz_verif_rt.go','/verif/harness/internal/spiffe/zz_verif_rt.go'])
